@@ -126,18 +126,49 @@ class C05Monitor(Monitor):
             x.flag(">=2 active demes at T")
 
 
+BOUNDARY_KINDS = ("evals", "fevals", "precision", "rootstopped", "allstopped")
+
+
 class ShippedMonitor(C05Monitor):
-    """Adds the three explicit clauses for MetaepochLimit(n), DontRun (and the root clause)."""
+    """Adds the explicit clauses for MetaepochLimit(n), DontRun, the root clause, and the
+    boundary clause: no metaepoch may be started when the real condition held at the boundary.
+    The boundary state is observed at the first objective call of a new metaepoch (deme counters
+    and flags are still those of the boundary; only the metaepoch counter has moved, so
+    conditions that read the counter are not judged this way)."""
 
     def __init__(self, x):
         super().__init__(x)
         self.nlog_start = None
         self.root_me0 = None
+        self.last_me = 0
 
     def on(self, kind, tree, info):
         if kind == "start":
             self.nlog_start = len(self.x.w.log)
+            self.last_me = tree.metaepoch_count
+            if self.x.desc["gsc"]["kind"] in BOUNDARY_KINDS:
+                self.x.w.log.hooks.append(self.on_call)
         super().on(kind, tree, info)
+
+    def on_call(self, level, xx, v):
+        w = self.x.w
+        t = w.tree
+        if t is None:
+            return
+        me = t.metaepoch_count
+        if me > self.last_me:
+            self.last_me = me
+            self.x.flag("start of a metaepoch observed")
+            try:
+                held = bool(w.real_gsc(t))
+            except Exception:
+                return
+            if held:
+                self.x.violate(
+                    "C05/metaepoch-started-although-condition-held-at-boundary",
+                    f"metaepoch {me} was started although the global condition {w.real_gsc} already held at the preceding boundary "
+                    f"(evaluations at the boundary: {t.n_evaluations})",
+                )
 
     def end(self, tree):
         super().end(tree)
@@ -208,9 +239,22 @@ def _shipped(tier, seed):
     return out
 
 
+def _sweeps(tier, seed):
+    """Every evaluation limit N in 1..E (E = evaluations of the undisturbed run): the complete
+    enumeration of the points at which an evaluation-limit condition can first hold."""
+    from ..runlib import rep_shapes
+
+    out = []
+    shapes = rep_shapes() if tier == "thorough" else rep_shapes()[::2]
+    for k, eng in enumerate(shapes):
+        out.append(dict(engines=list(eng), gens=1 + k % 2, sprout={"kind": ("simple", "nbc")[k % 2], "L": 2}, seed=1 + seed % 1000, Mh=4, drive="run"))
+    return out
+
+
 def units(tier, seed):
     us = [{"kind": "force", "desc": d} for d in _worlds(tier, seed)]
     us += [{"kind": "shipped", "desc": d} for d in _shipped(tier, seed)]
+    us += [{"kind": "evalsweep", "desc": d} for d in _sweeps(tier, seed)]
     us.append({"kind": "minimize", "seed": seed})
     return us
 
@@ -227,6 +271,16 @@ def run_unit(unit):
     elif unit["kind"] == "shipped":
         desc = dict(unit["desc"], choices="")
         explore(res, ID, unit, desc, [ShippedMonitor], bound=0, nontrivial_rule=_nontrivial)
+    elif unit["kind"] == "evalsweep":
+        base = Execution(dict(unit["desc"], choices=""), [], []).run()
+        E = len(base.w.log) if base.w is not None else 0
+        for N in range(1, E + 1):
+            for kind in ("evals", "fevals"):
+                if kind == "fevals" and N % 3:
+                    continue
+                g = {"kind": "evals", "n": N} if kind == "evals" else {"kind": "fevals", "n": N, "weights": [1, 2, 3][: len(unit["desc"]["engines"])] if N % 2 else "equal"}
+                desc = dict(unit["desc"], choices="", gsc=g)
+                explore(res, ID, {"kind": "evalsweep"}, desc, [ShippedMonitor], bound=0, nontrivial_rule=_nontrivial, audit_every=64)
     elif unit["kind"] == "minimize":
         _minimize_unit(res, unit)
     return res
@@ -278,6 +332,8 @@ def finish(res, tier):
         raise Vacuous("fewer than 100 executions with the first-true point at a boundary")
     if res.flags["dontrun world"] < 1 or res.flags["root ran exactly n"] < 5:
         raise Vacuous("explicit MetaepochLimit / DontRun clauses not exercised")
+    if res.flags["start of a metaepoch observed"] < 500:
+        raise Vacuous("boundary clause hardly exercised")
     if res.configs_completed < res.configs:
         raise Vacuous(f"{res.configs - res.configs_completed} configurations without any completed execution")
     return {}
@@ -289,5 +345,5 @@ def replay(rep):
         r = Result()
         _minimize_unit(r, unit)
         return r.violations
-    mon = C05Monitor if unit["kind"] == "force" else ShippedMonitor
+    mon = C05Monitor if unit.get("kind") == "force" else ShippedMonitor
     return replay_run([mon], rep)
